@@ -49,7 +49,7 @@ type Case struct {
 	End2    string `json:"end2,omitempty"`
 	Init    string `json:"init,omitempty"`  // reduce :initial-value
 	RType   string `json:"rtype,omitempty"` // result type of map/merge/concatenate
-	Style   int    `json:"style,omitempty"` // how function designators are written: 0 #'f, 1 'f, 2 (lambda ...)
+	Style   int    `json:"style,omitempty"` // how function designators are written: 0 #'f, 1 'f, 2 (lambda ...); 3 4 5: a lambda whose true value is not t (0, :yes, a list): predicates and tests answer a generalized boolean
 	Rot     int    `json:"rot,omitempty"`   // rotation of the keyword argument order
 }
 
@@ -247,6 +247,15 @@ func (c Case) keyVal(kind string, v int) V {
 	panic("key " + c.Key + " on a " + kind)
 }
 
+// truthy: with the styles 3 4 5 the function answers a true value other than t.
+func (c Case) truthy(src, params string) string {
+	if c.Style < 3 {
+		return src
+	}
+	v := []string{"0", ":yes", "(list nil)"}[(c.Style-3)%3]
+	return "(lambda (" + params + ") (if (funcall " + src + " " + params + ") " + v + " nil))"
+}
+
 func designator(style int, name, lambda string) string {
 	switch style {
 	case 0:
@@ -293,6 +302,10 @@ func test2(name string, a, b V) bool {
 }
 
 func (c Case) testSrc(char bool) string {
+	return c.truthy(c.testSrc0(char), "a b")
+}
+
+func (c Case) testSrc0(char bool) string {
 	switch c.Test {
 	case "eql", "equal":
 		return designator(c.Style, c.Test, "(lambda (a b) ("+c.Test+" a b))")
@@ -330,6 +343,10 @@ func (c Case) pred1(k V) bool {
 }
 
 func (c Case) predSrc(char bool) string {
+	return c.truthy(c.predSrc0(char), "x")
+}
+
+func (c Case) predSrc0(char bool) string {
 	item := vi(c.Item)
 	if char {
 		item = vc(c.Item)
@@ -909,6 +926,10 @@ func (c Case) sortKey(kind string, v int) int {
 }
 
 func (c Case) orderSrc(kind string) string {
+	return c.truthy(c.orderSrc0(kind), "x y")
+}
+
+func (c Case) orderSrc0(kind string) string {
 	desc := c.Pred == "gt" || c.Pred == "lgt"
 	op := "<"
 	if desc {
